@@ -68,14 +68,13 @@ def structRoot (H : Hash2) (env : Env) (fields : List GoField) : Method → Opti
     (fieldImpls env fields args).bind fun is => if v == n!"HashTreeRoot" then some (fieldsRoot H is) else none
   | _ => none
 
-/-- denotation of a struct type's five methods -/
-def denoteStruct (H : Hash2) (c : Config) (owners : Owners) (views : List ViewDef) (env : Env)
-    (fields : List GoField) (T : GoType) : Option Impl :=
+/-- denotation of the four encoding methods of a struct type (the root is `structRoot`, apart) -/
+def denoteStructCodec (c : Config) (owners : Owners) (views : List ViewDef) (env : Env)
+    (fields : List GoField) (T : GoType) : Option Codec :=
   match structSer env fields T.serialize, structDes env fields T.deserialize,
-    structBlen c owners views env fields T.byteLength, structFlen c owners views env fields T.fixedLength,
-    structRoot H env fields T.hashTreeRoot with
-  | some s, some d, some b, some f, some r => some ⟨s, d, b, f, r⟩
-  | _, _, _, _, _ => none
+    structBlen c owners views env fields T.byteLength, structFlen c owners views env fields T.fixedLength with
+  | some s, some d, some b, some f => some ⟨s, d, b, f⟩
+  | _, _, _, _ => none
 
 /-- size argument of a `List`/`Vector` call under a configuration -/
 def denoteSize (c : Config) (owners : Owners) (views : List ViewDef) : Option SizeE → Option Nat
@@ -113,12 +112,12 @@ def listRoot (H : Hash2) (c : Config) (e : Impl) : Method → Option (Val → Ch
     else none
   | _ => none
 
-/-- denotation of a list wrapper type (`type Xs []X`) over the implementation `e` of its element type -/
-def denoteList (H : Hash2) (c : Config) (owners : Owners) (views : List ViewDef) (e : Impl) (T : GoType) : Option Impl :=
+/-- denotation of the encoding methods of a list wrapper type (`type Xs []X`) over the implementation `e` of its element type (root: `listRoot`) -/
+def denoteListCodec (c : Config) (owners : Owners) (views : List ViewDef) (e : Impl) (T : GoType) : Option Codec :=
   match listSer c owners views e T.serialize, listDesM c owners views e T.deserialize,
-    listBlen c owners views e T.byteLength, denoteLen c owners views T.fixedLength, listRoot H c e T.hashTreeRoot with
-  | some s, some d, some b, some f, some r => some ⟨s, d, b, f, r⟩
-  | _, _, _, _, _ => none
+    listBlen c owners views e T.byteLength, denoteLen c owners views T.fixedLength with
+  | some s, some d, some b, some f => some ⟨s, d, b, f⟩
+  | _, _, _, _ => none
 
 /-! ### vector wrapper types (`type RandaoMixes []Root`, `type DepositProof [33]Root`) -/
 
@@ -157,12 +156,12 @@ def vecRoot (H : Hash2) (c : Config) (e : Impl) : Method → Option (Val → Chu
     else none
   | _ => none
 
-/-- denotation of a vector wrapper type over the implementation `e` of its element type -/
-def denoteVector (H : Hash2) (c : Config) (owners : Owners) (views : List ViewDef) (e : Impl) (T : GoType) : Option Impl :=
+/-- denotation of the encoding methods of a vector wrapper type over the implementation `e` of its element type (root: `vecRoot`) -/
+def denoteVectorCodec (c : Config) (owners : Owners) (views : List ViewDef) (e : Impl) (T : GoType) : Option Codec :=
   match vecSer c owners views e T.serialize, vecDes c owners views e T.deserialize,
-    vecBlen c owners views T.byteLength, denoteLen c owners views T.fixedLength, vecRoot H c e T.hashTreeRoot with
-  | some s, some d, some b, some f, some r => some ⟨s, d, b, f, r⟩
-  | _, _, _, _, _ => none
+    vecBlen c owners views T.byteLength, denoteLen c owners views T.fixedLength with
+  | some s, some d, some b, some f => some ⟨s, d, b, f⟩
+  | _, _, _, _ => none
 
 /-! ### leaf and bitfield rows: functions of the raw representation -/
 
@@ -204,11 +203,11 @@ def leafRoot (H : Hash2) (c : Config) : Method → Option (Bytes → Chunk)
       | none => none
   | _ => none
 
-/-- denotation of a leaf / bitfield type's five methods -/
-def denoteLeaf (H : Hash2) (c : Config) (owners : Owners) (views : List ViewDef) (T : GoType) : Option LeafImpl :=
+/-- denotation of a leaf / bitfield type's four encoding methods (root: `leafRoot`) -/
+def denoteLeafCodec (c : Config) (owners : Owners) (views : List ViewDef) (T : GoType) : Option LeafCodec :=
   match leafDes c T.deserialize, leafSer T.serialize, leafBlen c owners views T.byteLength,
-    denoteLen c owners views T.fixedLength, leafRoot H c T.hashTreeRoot with
-  | some d, some s, some b, some f, some r => some ⟨d, s, b, f, r⟩
-  | _, _, _, _, _ => none
+    denoteLen c owners views T.fixedLength with
+  | some d, some s, some b, some f => some ⟨d, s, b, f⟩
+  | _, _, _, _ => none
 
 end Zrnt.Schema.Facts
